@@ -107,7 +107,8 @@ theorem step_new_sum (C : SortedCtx dqr As q0s q1s) (hprod : QRProduct dqr) {P :
       have hj' : j - firstIdx q1s c < (blk As q0s q1s c).n := by rw [hn]; omega
       rw [← Mat.mul_f, hprod _ _ _ hi' hj', if_pos ⟨hr, hc⟩]
       unfold blk at hi' hj' ⊢
-      rw [Mat.tab_f _ hi' hj', Mat.slice_f, Nat.add_sub_of_le hr.1, Nat.add_sub_of_le hc.1]
+      rw [Mat.tab_f _ (by simpa using hi') (by simpa using hj'), Mat.slice_f,
+        Nat.add_sub_of_le hr.1, Nat.add_sub_of_le hc.1]
     · simp only [if_neg hc, mul_zero, sum_const_zero]
       rw [if_neg (fun h => hc h.2)]
   · simp only [if_neg hr, zero_mul, sum_const_zero]
